@@ -2,6 +2,7 @@ package fpgo
 
 import (
 	"fmt"
+	"sync"
 	"time"
 )
 
@@ -128,6 +129,10 @@ type AskDef[T any, R any] struct {
 	id time.Time
 	ch chan R
 
+	// Closed when the asker gave up(timeout), in order to discard a late Reply()
+	timeoutCh   chan struct{}
+	timeoutOnce sync.Once
+
 	Message T
 }
 
@@ -152,6 +157,8 @@ func AskNewByOptionsGenerics[T any, R any](message T, ioCh chan R) *AskDef[T, R]
 		id: time.Now(),
 		ch: ioCh,
 
+		timeoutCh: make(chan struct{}),
+
 		Message: message,
 	}
 
@@ -170,12 +177,18 @@ func (askSelf *AskDef[T, R]) AskOnce(target ActorHandle[interface{}]) R {
 // AskOnceWithTimeout Sender Ask with timeout
 func (askSelf *AskDef[T, R]) AskOnceWithTimeout(target ActorHandle[interface{}], timeout time.Duration) (R, error) {
 	ch := askSelf.AskChannel(target)
-	defer close(ch)
 	var result R
 	select {
 	case result = <-ch:
+		close(ch)
 	case <-time.After(timeout):
 		verifAt("ask.timeout.fired")
+		// Do not close ch(a Reply() might be sending right now): tell Reply() to give up instead
+		askSelf.timeoutOnce.Do(func() {
+			if askSelf.timeoutCh != nil {
+				close(askSelf.timeoutCh)
+			}
+		})
 		return result, ErrActorAskTimeout
 	}
 
@@ -192,7 +205,11 @@ func (askSelf *AskDef[T, R]) AskChannel(target ActorHandle[interface{}]) chan R 
 // Reply Receiver Reply
 func (askSelf *AskDef[T, R]) Reply(response R) {
 	verifAt("ask.Reply.enter")
-	askSelf.ch <- response
+	select {
+	case askSelf.ch <- response:
+	case <-askSelf.timeoutCh:
+		// The asker has timed out: discard the reply
+	}
 }
 
 // Ask Ask utils instance
